@@ -225,8 +225,11 @@ package main
 //@ func validateCompiledInput
 //@   requires route != nil
 //@   ensures result == nil && declC(route) ==> reqOK(body, declCTD(route))
+// a declared input type that is not a bare named type (T?, A | B, [T], a scalar): a body that is present has been accepted for it
+//@   ensures result == nil && route.InputType != nil && !typeis(route.InputType, ast.NamedType) && body != nil ==> checkOK(boxas(map[string]interface{}, body), route.InputType)
 //@ func createCompiledRouteHandler$1
 //@   assertat "interfaceToValue(bodyMap))" declC(route) ==> reqOK(bodyMap, declCTD(route))
+//@   assertat "interfaceToValue(bodyMap))"#0 route.InputType != nil && !typeis(route.InputType, ast.NamedType) && bodyMap != nil ==> checkOK(boxas(map[string]interface{}, bodyMap), route.InputType)
 //@   assertat ", vm.NullValue{})" declC(route) ==> reqOK(nil, declCTD(route))
 // a declared return type: the value a compiled route produced is encoded only if it is acceptable for the declared type
 // (retOK: the compiled-side counterpart of the interpreter's checkOK; nothing in the handler establishes it)
